@@ -14,8 +14,8 @@ use crate::internal::{
 };
 
 // TODO: allow to customize
-const MAX_TYPE_DEPTH: usize = 20;
-const RECURSIVE_TYPE_WARNING: &str =
+pub const MAX_TYPE_DEPTH: usize = 20;
+pub const RECURSIVE_TYPE_WARNING: &str =
     "Too deeply nested type detected: recursive types are not supported in schema tracing";
 
 fn default_dictionary_field(name: &str, nullable: bool, string_type: DataType) -> Field {
